@@ -6,5 +6,5 @@ CONSTANTS
   WithStreams = TRUE
   CodeQuirks = {}
 VIEW View
-INVARIANTS TypeOK Released SwarmClosed
+INVARIANTS TypeOK Released SwarmClosed NoOrphan
 CHECK_DEADLOCK FALSE
